@@ -114,7 +114,8 @@ theorem outer_out_finished {cfg : Cfg} (now : Nat) : ∀ (rounds : Nat) (d : DIt
         obtain ⟨it', h1, h2⟩ := outer_rel (cfg := cfg) FinRel FinRel.refl FinRel.trans now
           (fun ct fuel it acc hinv hlt => innerLoop_finrel now ct fuel it acc hinv hlt)
           r _ .none hd2 d.pos _ hm
-        rw [Nat.add_zero, Nat.mod_eq_of_lt hpos]
+        have hz0 : (d.pos + 0) % d.iters.length = d.pos := by rw [Nat.add_zero, Nat.mod_eq_of_lt hpos]
+        rw [hz0]
         exact ⟨it', h1, by rw [h2.1 hfin]; exact hfin⟩
       | succ k =>
         obtain ⟨it', h1, h2⟩ := hall k (by omega)
